@@ -129,7 +129,7 @@ impl Check for C14 {
         tier.pick(std::time::Duration::from_secs(200), std::time::Duration::from_secs(2400))
     }
     fn required_counters(&self, _tier: Tier) -> Vec<&'static str> {
-        vec!["levels:1", "levels:2", "levels:3", "rejected:too-small", "order:Random", "content:incompressible", "build:max=1048576", "build:max=1024", "mode:public", "mode:private", "round-trip-ok", "realnet:round-trips-ok"]
+        vec!["levels:1", "levels:2", "levels:3", "rejected:too-small", "order:Random", "content:incompressible", "build:max=1048576", "build:max=1024", "mode:public", "mode:private", "round-trip-ok"]
     }
     fn exe_for_index(&self, index: u64) -> Option<PathBuf> {
         if index % 2 == 1 {
